@@ -470,6 +470,12 @@ func genSoft() {
 	if p.MaxTransactionSize < 100 {
 		p.MaxTransactionSize = 100
 	}
+	// the soft rules, asked on their own, judge the encoded size - whatever the length field of the transaction claims
+	lengthLies := 0
+	if rng.Intn(6) == 0 {
+		lengthLies = []int{-1, 1, -size / 2, size, 40000}[rng.Intn(5)]
+		txn.Length = uint32(size + lengthLies)
+	}
 	var err error
 	pan := guard(func() { err = transaction.VerifySingleTxnSoftConstraints(txn, headTime, uxIn, dist, p) })
 	res := "ok"
@@ -484,7 +490,7 @@ func genSoft() {
 	}
 	r := rec{"fn": "soft", "st": rec{"headTime": headTime, "unspent": unspent}, "size": size, "ins": insOf(&txn), "outs": outsOf(&txn),
 		"p":      rec{"burn": L(uint64(p.BurnFactor)), "maxSize": int(p.MaxTransactionSize), "prec": int(p.MaxDropletPrecision)},
-		"locked": []string{lockedOwner.addr.String()}, "res": res, "err": "", "panic": pan}
+		"locked": []string{lockedOwner.addr.String()}, "res": res, "err": "", "panic": pan, "lengthLies": lengthLies}
 	if err != nil {
 		r["err"] = err.Error()
 	}
